@@ -512,6 +512,17 @@ class Printer:
             self.pattern(p[1])
             self.w(" if ")
             self.term(p[2], 10)
+        elif k == "por":
+            # (p1) or (p2) ..: the alternatives bind the same variables
+            for i, q in enumerate(p[1]):
+                if i:
+                    self.w(" or ")
+                if q[0] == "pvariant":
+                    self.w("(")
+                    self.pattern(q)
+                    self.w(")")
+                else:
+                    self.pattern(q)
         else:
             raise ValueError(p)
 
@@ -743,7 +754,7 @@ def walk_terms(t, f, under_hole=False):
         return
     for c in t:
         if isinstance(c, tuple):
-            if c and c[0] in ("ptag", "pvariant", "pwild", "pvar", "plit", "prec", "pguard", "dyn") and not (c[0] == "dyn" and len(c) == 1):
+            if c and c[0] in ("ptag", "pvariant", "pwild", "pvar", "plit", "prec", "pguard", "por", "dyn") and not (c[0] == "dyn" and len(c) == 1):
                 if c[0] == "dyn" and len(c) == 2:
                     walk_terms(c[1], f, under_hole)
                 if c[0] == "pguard":
@@ -1349,8 +1360,28 @@ class Gen:
         parts = self.split(n, len(covered) + (1 if need_default else 0))
         arms = []
         guarded = False
+        # neighbouring rows with the same payload type are sometimes matched by one or-pattern arm
+        grouped, skip = [], set()
+        for i, (tag, pt) in enumerate(covered):
+            if i in skip:
+                continue
+            if i + 1 < len(covered) and covered[i + 1][1] == pt and r.chance(1, 2):
+                skip.add(i + 1)
+                grouped.append(((tag, covered[i + 1][0]), pt))
+            else:
+                grouped.append((tag, pt))
+        if len(grouped) < len(covered):
+            parts = self.split(n, len(grouped) + (1 if need_default else 0))
+            covered = grouped
         for (tag, pt), p in zip(covered, parts):
-            if pt is None:
+            if isinstance(tag, tuple):
+                self.features.add("pat:or")
+                if pt is None:
+                    pat, env2 = ("por", tuple(("ptag", t1) for t1 in tag)), env
+                else:
+                    x = self.fresh("m")
+                    pat, env2 = ("por", tuple(("pvariant", t1, x) for t1 in tag)), env + [(x, pt, exact)]
+            elif pt is None:
                 pat, env2 = ("ptag", tag), env
             elif r.chance(1, 6):
                 pat, env2 = ("pvariant", tag, None), env
@@ -1903,7 +1934,7 @@ def mutate_type(rng, T):
 
 
 MUTATIONS = ["op-swap", "drop-arm", "rename-proj", "rename-field", "annot-change", "swap-args", "lit-kind", "stdref-swap",
-             "unwrap-hole", "drop-field", "var-swap", "tag-swap", "scrutinee-type-add-tag"]
+             "unwrap-hole", "drop-field", "var-swap", "tag-swap", "scrutinee-type-add-tag", "or-merge"]
 
 
 def mutate(rng, ast, sigs, what):
@@ -1922,6 +1953,20 @@ def mutate(rng, ast, sigs, what):
         cls = [c for c in OP_CLASSES if n[1] in c][0]
         new = rng.choice([o for c in OP_CLASSES if c is not cls for o in c])
         return replace_at(ast, p, ("op", new, n[2]))
+    if what == "or-merge":
+        # two variant arms with binders become one or-pattern arm running the first arm's body: the typechecker
+        # must give the binder ONE type (accepted only when the two payload types agree)
+        def two(n):
+            return n[0] == "match" and len([a for a in n[2] if a[0][0] == "pvariant" and a[0][2]]) >= 2
+        p, n = pick(two)
+        if n is None:
+            return None
+        idx = [i for i, a in enumerate(n[2]) if a[0][0] == "pvariant" and a[0][2]]
+        i, j = rng.shuffle(idx)[:2]
+        x = n[2][i][0][2]
+        merged = (("por", (n[2][i][0], ("pvariant", n[2][j][0][1], x))), n[2][i][1])
+        arms = tuple(merged if k == min(i, j) else a for k, a in enumerate(n[2]) if k != max(i, j))
+        return replace_at(ast, p, ("match", n[1], arms))
     if what == "drop-arm":
         p, n = pick(lambda n: n[0] == "match" and len(n[2]) >= 2)
         if n is None:
